@@ -23,6 +23,24 @@ def lambda_site(fb, f):
     par = f.unit.fn_by_id.get(f.lambda_parent)
     if par is None:
         return None, None
+    from .inline import standalone, inline
+    if not par.invalid and not standalone(par):
+        # the enclosing function is itself judged only where it is inlined (a private helper, a closure that runs inside
+        # an inlined helper): this closure is created in those inlined copies
+        cache = f.unit.__dict__.setdefault("_lam_sites", {})
+        if f.id not in cache:
+            cache[f.id] = (par, None)
+            for h in f.unit.functions:
+                if h.invalid or not standalone(h):
+                    continue
+                v = inline(h)
+                if v is h:
+                    continue
+                hit = [st for st in v.stmts.values() if st["k"] == "LambdaExpr" and f.id in st.get("call_ops", [])]
+                if hit:
+                    cache[f.id] = (v, hit[0])
+                    break
+        return cache[f.id]
     for st in par.stmts.values():
         if st["k"] == "LambdaExpr" and f.id in st.get("call_ops", []):
             return par, st
@@ -446,6 +464,18 @@ def _check_handle_escape(eng, f, la, call, guard, need, acc):
         return False, "exclusive access required but the handle's lock type is shared"
     a1 = args[1]
     ptypes = call["callee"].get("params", [])
+    if len(args) > 2 and call["k"] in CTORS:
+        r = eng.handle_ctor_lock(f, la, call, f.pos_of(call))
+        if r is None:
+            return False, "cannot read what this handle constructor does with its lock"
+        v = r[0]
+        if v.mutex != guard:
+            return False, "handle locks %s, not the object's own %s" % (v.mutex, guard[5:])
+        if v.st == UNOWNED:
+            return False, "handle is built with a lock that does not own %s" % guard[5:]
+        if r[1] == "adopt" and not la.holds(f.pos_of(call), guard, need):
+            return False, "handle adopts %s, which is not held here" % guard[5:]
+        return True, ""
     if len(ptypes) > 1 and is_mutex_type(ptypes[1]):
         mp = path(f, a1)
         if mp == guard:
@@ -472,6 +502,14 @@ def _check_disabled_arm(eng, f, la, st, acc, user, ent):
     if call["k"] not in CTORS:
         return False, "disabled arm calls a locking helper"
     args = [f.s(a) for a in call["args"]]
+    if len(args) > 2:
+        r = eng.handle_ctor_lock(f, la, call, f.pos_of(call))
+        if r is None:
+            return False, "cannot read what this handle constructor does with its lock"
+        if r[0].st != UNOWNED:
+            return False, "the handle built in the disabled arm %s %s" % (
+                "adopts (and later unlocks)" if r[1] == "adopt" else "locks", r[0].mutex)
+        return True, ""
     a1 = unwrap(f, args[1]) if len(args) > 1 else None
     # the by-value parameter is move-constructed from the temporary
     while a1 is not None and a1["k"] in CTORS and len(a1["args"]) == 1:
